@@ -150,3 +150,25 @@ def quadraticAssignment (D F : List (List Rat)) : Option GCqm :=
                       lhs := (List.range n).map (fun i => PTerm.lin (xIJ i j) 1) ++ [PTerm.const (-1)], sense := .eq, rhs := 0 } : GCons)) }
 
 end Gen
+
+namespace Gen
+open Pen
+
+/-! ## `binary_paint_shop_problem(car_sequence)` -/
+
+def countL (c : Label) (l : List Label) : Nat := (l.filter (fun d => d = c)).length
+
+/-- the loop over `zip(car_sequence, car_sequence[1:])`; `seen` = the cars before the current position
+    (`car_counter[car]` = number of occurrences of `car` in `seen`) -/
+def bpspGo (seen : List Label) : List Label → List (PTerm Label)
+  | c1 :: c2 :: rest =>
+    (if c1 ≠ c2 then [PTerm.quad c1 c2 (if (countL c1 seen + countL c2 seen + 1) % 2 = 0 then 1 else -1)] else [])
+    ++ bpspGo (c1 :: seen) (c2 :: rest)
+  | _ => []
+
+/-- `none` = `ValueError`: some car does not appear exactly twice
+    (`any(count != 2 for count in Counter(car_sequence).values())`, as repaired by patches/bpsp-car-multiplicity.diff) -/
+def bpsp (seq : List Label) : Option (List (PTerm Label)) :=
+  if seq.any (fun c => countL c seq ≠ 2) then none else some (bpspGo [] seq)
+
+end Gen
